@@ -189,6 +189,30 @@ def rule_ty_sig(ctx):
         if not ok:
             r.violate(nm, "receiver", "must take &mut self so that no snapshot borrowed from the guard survives it",
                       "%s:%d" % (fs[0]["span"]["file"], fs[0]["span"]["line"]))
-    # Snapshot::from_raw / WeakSnapshot::from_raw take the guard
+    # Every *source* of a strong Snapshot needs an argument why the cascade cannot destruct the referent inside the
+    # critical section (F12 was a source nobody had asked that question about). The table names the rule that checks it.
+    SOURCES = {
+        "strong::AtomicRc::<T>::load": "came through an owner's link: the link word carries the epoch it was written in (LINK-STAMP)",
+        "strong::AtomicRc::<T>::compare_exchange": "`current` of a failure: read from the link like load (LINK-STAMP)",
+        "strong::AtomicRc::<T>::compare_exchange_weak": "`current` of a failure: read from the link like load (LINK-STAMP)",
+        "strong::AtomicRc::<T>::compare_exchange_tag": "the expected Snapshot (already protected) / the link's word (LINK-STAMP)",
+        "strong::Rc::<T>::snapshot": "the Rc is an owner; if it is dropped inside the critical section its decrement stamps the "
+                                     "current epoch (CW-STAMP-ON-DEC)",
+        "<strong::Snapshot<'g, T> as std::clone::Clone>::clone": "derived from a Snapshot of the same guard",
+        "strong::Snapshot::<'g, T>::with_tag": "derived from a Snapshot of the same guard",
+        "weak::WeakSnapshot::<'g, T>::upgrade": "did not come through an owner: the check leaves the token or the current epoch on "
+                                                "the count word (CW-UPGRADE-TRACE)",
+    }
+    for f in prog.items["fns"]:
+        if "Public" not in f["vis"] or "strong::Snapshot<" not in f["output"]:
+            continue
+        if f["path"].endswith("::null") or f["path"].endswith("::default"):
+            continue
+        why = SOURCES.get(f["path"])
+        r.instance("source of a strong Snapshot: %s [%s]" % (f["path"], (why or "UNCLASSIFIED")[:70]), why is not None)
+        if why is None:
+            r.violate(f["path"], "unclassified-source", "hands out a strong Snapshot but is not one of the classified sources: "
+                      "say why the cascade cannot destruct the referent inside the critical section (which stamp or count "
+                      "records the access) and which rule checks it", "%s:%d" % (f["span"]["file"], f["span"]["line"]))
     r.require(n, 17, "snapshot-returning public functions")
     return r
